@@ -611,13 +611,13 @@ class _B:
         return self.act(t) if self.draw(st.booleans()) else t
 
 
-def _fixtures(family: str):
+def _fixtures(family: str, pad: str = 'causal'):
     """Hand-written concat topologies that the series-parallel generator reaches only rarely
     (nested channel concatenations, also reaching the output)."""
     def conv(i, src, cout, **kw):
         if family == '1d':
             return dict({'id': i, 'op': 'conv1d', 'in': [src], 'k': 3, 'dil': 1, 'stride': 1,
-                         'pad': 'causal', 'cout': cout, 'bias': True, 'bn': False, 'groups': 1}, **kw)
+                         'pad': pad, 'cout': cout, 'bias': True, 'bn': False, 'groups': 1}, **kw)
         return dict({'id': i, 'op': 'conv2d', 'in': [src], 'k': 3, 'p': 1, 'stride': 1, 'cout': cout,
                      'bias': True, 'bn': False, 'groups': 1}, **kw)
     inp = [[2, 9]] if family == '1d' else [[2, 5, 5]]
@@ -646,6 +646,13 @@ def _fixtures(family: str):
                 {'id': 'n2', 'op': 'flatten', 'in': ['n1'], 'variant': 'mod'},
                 lin('n3', 'n2', 6), relu('n4', 'n3'), lin('n5', 'n4', 5, bn=True), relu('n6', 'n5'),
                 lin('n7', 'n6', 2)])
+    # a true MLP: the flatten merges the axes of the NETWORK INPUT (constant features), then
+    # searchable Linear layers - and the same behind a pooling of the input
+    flat = lambda i, src, v: {'id': i, 'op': 'flatten', 'in': [src], 'variant': v}   # noqa
+    out.append([flat('n0', 'x', 'mod'), lin('n1', 'n0', 6), relu('n2', 'n1'),
+                lin('n3', 'n2', 5, bn=True), relu('n4', 'n3'), lin('n5', 'n4', 2)])
+    out.append([{'id': 'n0', 'op': 'avgpool', 'in': ['x']}, flat('n1', 'n0', 'method'),
+                lin('n2', 'n1', 4), relu('n3', 'n2'), lin('n4', 'n3', 3)])
     return [{'family': family, 'inputs': inp, 'nodes': nodes, 'out': nodes[-1]['id']}
             for nodes in out]
 
@@ -653,9 +660,12 @@ def _fixtures(family: str):
 @st.composite
 def netspecs(draw, prof: Profile):
     p = prof
-    if p.fixtures and p.cat and draw(st.integers(0, 7)) == 0:
+    if p.fixtures and draw(st.integers(0, 7)) == 0:
         import copy as _copy
-        return _copy.deepcopy(draw(st.sampled_from(_fixtures(p.family))))
+        fx = [f for f in _fixtures(p.family, 'causal' if 'causal' in p.pads else p.pads[0])
+              if (p.cat or not any(n['op'] == 'cat' for n in f['nodes'])) and
+              (p.bn or not any(n.get('bn') for n in f['nodes']))]
+        return _copy.deepcopy(draw(st.sampled_from(fx)))
     if p.family == '1d':
         inp = [draw(st.integers(1, 4)), draw(st.integers(6, 16))]
     else:
